@@ -421,21 +421,36 @@ def split(body, sizes, allow_empty=False):
     return out
 
 
+# options / handler objects are long-lived in an application (one per app, used for every request): the harness keeps
+# one per configuration as well, so that every form is parsed by objects that have parsed other forms before
+_LONG_LIVED = {}
+
+
+def _limits_key(limits):
+    return tuple(sorted((limits or {}).items()))
+
+
 def _options(limits):
-    opts = falcon.RequestOptions()
-    if limits:
-        handler = MultipartFormHandler()
-        for k, v in limits.items():
-            setattr(handler.parse_options, k, v)
-        opts.media_handlers[falcon.MEDIA_MULTIPART] = handler
-    return opts
+    key = ('options', _limits_key(limits))
+    if key not in _LONG_LIVED:
+        opts = falcon.RequestOptions()
+        if limits:
+            handler = MultipartFormHandler()
+            for k, v in limits.items():
+                setattr(handler.parse_options, k, v)
+            opts.media_handlers[falcon.MEDIA_MULTIPART] = handler
+        _LONG_LIVED[key] = opts
+    return _LONG_LIVED[key]
 
 
 def _handler(limits):
-    handler = MultipartFormHandler()
-    for k, v in (limits or {}).items():
-        setattr(handler.parse_options, k, v)
-    return handler
+    key = ('handler', _limits_key(limits))
+    if key not in _LONG_LIVED:
+        handler = MultipartFormHandler()
+        for k, v in (limits or {}).items():
+            setattr(handler.parse_options, k, v)
+        _LONG_LIVED[key] = handler
+    return _LONG_LIVED[key]
 
 
 def run_wsgi(ct, body, tr, plan, limits=None):
@@ -647,6 +662,13 @@ def run_valid(case, transports):
     for name, fn in transports:
         out = guarded(name, fn, ct, body, tr, plan, limits)
         check_valid_outcome(name, out, form, patterns, ct, body, tr, dc)
+        if len(body) <= 4096:
+            # the same long-lived options / handler objects parse the same form a second time: same parts again
+            out2 = guarded(name, fn, ct, body, tr, plan, limits)
+            if out2 != out:
+                raise Violation('second_parse_differs', '[%s] the same form parsed a second time by the same handler / options '
+                                'objects gave %s, the first time %s; content-type %r body=%s'
+                                % (name, _short(repr(out2), 600), _short(repr(out), 600), ct, _short(repr(body), 600)))
     info = valid_labels(form, patterns, body, layout, tr)
     return Info(info.nontrivial, info.labels + (('default_charset:' + dc,) if dc else ()))
 
@@ -671,7 +693,12 @@ def _budget_small(case):
     return 2_000_000 + 4000 * len(body)
 
 
-class Valid(Suite):
+class _C13Suite(Suite):
+    def setup(self):
+        _LONG_LIVED.clear()  # a clean suite state = fresh long-lived objects
+
+
+class Valid(_C13Suite):
     """Generated valid forms (0-5 parts; boundaries of 1-70 characters; hostile contents full of CR, LF, dashes, the
     boundary text and delimiter prefixes; preamble / epilogue / missing final CRLF; plain, raw UTF-8 and RFC 5987
     filenames) parsed four ways - falcon.Request over a short-reading wsgi.input, falcon.asgi.Request over events of
@@ -692,7 +719,7 @@ class Valid(Suite):
     confirm_hang = staticmethod(_confirm(lambda c: run_valid(c, TRANSPORTS), _budget_small))
 
 
-class ValidBig(Suite):
+class ValidBig(_C13Suite):
     """Bodies of 8-110 KiB through falcon.Request / falcon.asgi.Request with the default reader chunk sizes: one part
     is padded so that the hostile tail of its content or its closing delimiter lies across a chunk edge of the readers
     (multiples of 32768 for the sync reader; for the async reader multiples of the first event-size multiple >= 8192),
@@ -712,7 +739,7 @@ class ValidBig(Suite):
     confirm_hang = staticmethod(_confirm(lambda c: run_valid(c, REQUEST_TRANSPORTS), lambda c: 60_000_000))
 
 
-class ValidSweep(Suite):
+class ValidSweep(_C13Suite):
     """Six fixed small forms x every 2-split of the body (WSGI first short read, ASGI two events, reader source in
     two pieces) x reader chunk sizes delimiter+0.. x three consumption presets (read all / skip all / partial)."""
 
@@ -730,7 +757,7 @@ class ValidSweep(Suite):
     confirm_hang = staticmethod(_confirm(lambda c: run_valid(c, TRANSPORTS), _budget_small))
 
 
-class CharsetEnum(Suite):
+class CharsetEnum(_C13Suite):
     """Text decoding options, exhaustively (720 cases x 4 transports): part Content-Type absent / text/plain with no,
     a valid, another valid and an unknown charset / a non-text type; contents that are ASCII, UTF-8 that reads
     differently as Latin-1, not UTF-8, empty; MultipartParseOptions.default_charset unset, iso-8859-1, ascii, utf-16,
@@ -837,7 +864,7 @@ def run_limits(case):
     return Info(case['delta'] <= 0 and (which != 'count' or limit > 0), sorted(set(labels)))
 
 
-class Limits(Suite):
+class Limits(_C13Suite):
     """MultipartParseOptions limits at actual-1 / actual / actual+1: max_body_part_count against the number of parts
     (0 = unlimited), max_body_part_buffer_size against one part's content length (get_data / get_text),
     max_body_part_headers_size against one part's header block; configured on a custom handler in
@@ -954,7 +981,7 @@ def run_corrupt(case):
     return Info(pred is not None, labels)
 
 
-class Corrupt(Suite):
+class Corrupt(_C13Suite):
     """A generated valid body with one byte replaced / deleted / inserted at a generated position, or truncated, parsed
     four ways (WSGI, ASGI, both small-chunk readers).  Each outcome is a part list or MultipartParseError (any 4xx
     HTTPError), never another exception or a hang; all four agree; accepted contents are disjoint ordered slices of the
@@ -974,7 +1001,7 @@ class Corrupt(Suite):
     confirm_hang = staticmethod(_confirm(run_corrupt, _budget_small))
 
 
-class CorruptEnum(Suite):
+class CorruptEnum(_C13Suite):
     """Exhaustive: every position of the fixed small bodies (<= 120 bytes) x replace / insert with each byte of a
     hostile alphabet, delete, truncate (quick: 4 forms x 8 bytes; thorough: 6 forms x 19 bytes)."""
 
@@ -1015,7 +1042,7 @@ def run_header_param(case):
     return Info(True, ('expect:' + case['expect'], 'error:%s' % outs[0]['error']))
 
 
-class HeaderParam(Suite):
+class HeaderParam(_C13Suite):
     """Exhaustive list of Content-Type header variants around the boundary parameter (missing, empty, 70 / 71 / 200
     characters, quoted, upper-case parameter name, trailing white space that RFC 2046 says must be deleted, extra
     parameters): valid ones parse the fixed form, invalid ones raise a 4xx HTTPError, WSGI and ASGI agree."""
